@@ -77,7 +77,7 @@ OBS = {
     "collection_passes_all_root_sets_on": dict(kind="bounded", bound="0-2 values per root class", functions=["Heap::collection"],
         contract="an explicit collection forwards the caller's operand stack, frames, globals, thread-local slots and the force flag unchanged, with no pending value"),
     "make_box_call_site_contract": dict(kind="bounded", bound=B2, functions=["VmCore::make_box"],
-        contract="the collector entry point is called exactly once, inside a safepoint, with the WHOLE operand stack (from its base, whatever the frame pointer), the function of EVERY frame in order, the whole global table, all thread-local slots and the value being boxed as pending value; the result wraps the returned handle"),
+        contract="the collector entry point is called exactly once with the WHOLE operand stack (from its base, whatever the frame pointer), the function of EVERY frame in order, the whole global table, all thread-local slots and the value being boxed as pending value; the result wraps the returned handle"),
     "make_mutable_vector_call_site_contract": dict(kind="bounded", bound=B2, functions=["VmCore::make_mutable_vector"], contract="same for a mutable vector; the contents travel as pending values in order"),
     "make_mutable_vector_iter_call_site_contract": dict(kind="bounded", bound=B2, functions=["VmCore::make_mutable_vector_iter"], contract="same for make-vector (contents only exist in the iterator)"),
     "gc_collect_call_site_contract": dict(kind="bounded", bound=B2, functions=["VmCore::gc_collect"], contract="an explicit collection request is a FULL collection over the same four root sets"),
